@@ -4,12 +4,13 @@
 -/
 import GffModel.Proto
 import GffModel.ProtoC17
+import GffModel.ProtoMerge
 
 namespace GffModel
 namespace ProtoAll
 
 def handlers : List (List String → Option String) :=
-  [Proto.stepPure, ProtoC17.handler]
+  [Proto.stepPure, ProtoC17.handler, ProtoMerge.handler]
 
 def step (ws : List String) : Option String :=
   handlers.findSome? (fun h => h ws)
